@@ -59,6 +59,124 @@ def contract_job(c, inputs=None, n_random=0, seed=0, jid=None):
             "inputs": inputs, "n_random": n_random, "seed": seed}
 
 
+class ObView:
+    """Read-only view of a stored obligation result."""
+
+    def __init__(self, r):
+        self.id, self.kind, self.path, self.line, self.note = r["id"], r["kind"], r["path"], r["line"], r["note"]
+
+
+_DIGEST = None
+
+
+def tool_digest():
+    global _DIGEST
+    if _DIGEST is None:
+        h = hashlib.sha256()
+        for d in ("pyvc", "contracts"):
+            for fn in sorted(os.listdir(os.path.join(HERE, d))):
+                if fn.endswith(".py"):
+                    h.update(open(os.path.join(HERE, d, fn), "rb").read())
+        h.update(z3.get_version_string().encode())
+        _DIGEST = h.hexdigest()
+    return _DIGEST
+
+
+def run_contract_cached(c, tier, timeout_ms):
+    """Result of verifying one contract against the current source. Cached under .cache/ by (tool digest, tier,
+    contract, full text of the target's source file): the same function text with the same contracts and engine
+    gives the same obligations, so a property check reuses what another property's check already established in
+    this tree state. Nothing is reused across different source texts."""
+    h = hashlib.sha256()
+    h.update(tool_digest().encode())
+    h.update(f"{tier}|{c.key}|{timeout_ms}".encode())
+    if not c.target.startswith("lemma::"):
+        path = os.path.join(source.repo_root(), c.target.split("::")[0])
+        h.update(open(path, "rb").read() if os.path.exists(path) else b"<missing>")
+    # callee contracts live in the tool digest; callee *code* is not needed (modular verification)
+    key = h.hexdigest()[:32]
+    cdir = os.path.join(HERE, ".cache")
+    os.makedirs(cdir, exist_ok=True)
+    cpath = os.path.join(cdir, key + ".json")
+    if os.environ.get("VERIF_NO_CACHE") != "1" and os.path.exists(cpath):
+        try:
+            doc = json.load(open(cpath))
+            doc["_cached"] = True
+            return doc
+        except Exception:
+            pass
+    doc = run_contract(c, tier, timeout_ms)
+    tmp = cpath + f".{os.getpid()}.tmp"
+    json.dump(doc, open(tmp, "w"), default=str)
+    os.replace(tmp, cpath)
+    return doc
+
+
+def run_contract(c, tier, timeout_ms):
+    from pyvc.engine import Obligation
+    g = verify.generate(c)
+    fs = g.func
+    doc = {"function": {"contract": c.name, "target": c.target, "variant": c.variant,
+                        "source_sha": fs.sha if fs else None, "lines": list(fs.lines) if fs else None,
+                        "paths": g.paths, "outcomes": g.outcomes, "obligations": len(g.obls),
+                        "trusted": bool(c.trusted), "kind": "lemma" if c.target.startswith("lemma::") else "function",
+                        "generation_s": round(g.gen_time, 2)},
+           "undecided": [f"{c.name}: {u}" for u in g.undecided], "errors": [], "results": [],
+           "canary": {"checked": 0, "vacuous": []}, "cover": {"paths": 0, "vacuous": []}}
+    if not g.undecided and not c.trusted and not g.obls:
+        doc["undecided"].append(f"{c.name}: generated zero obligations")
+    if c.probes:
+        pr = verify.probes_for(g, c.probes)
+        for o in g.obls:
+            o.probes = pr
+    res = solve.discharge_all(g.obls, timeout_ms=timeout_ms)
+    for r in res:
+        o = r["obl"]
+        doc["results"].append({"id": o.id, "kind": o.kind, "path": getattr(o, "path", ""), "line": o.line, "note": o.note,
+                               "status": r["status"], "time": r["time"], "backends": r["backends"],
+                               "parts": [{k: v for k, v in p.items()} for p in r["parts"]]})
+    # clause coverage guard
+    if not g.undecided and not c.trusted:
+        labels = {o.id.split("/", 1)[1] for o in g.obls}
+        for lab, _ in c.ensures:
+            if f"ensures:{lab}" not in labels:
+                doc["undecided"].append(f"{c.name}: clause ensures:{lab} generated no obligation (contract no longer matches the code)")
+    # vacuity canary: for every ensures clause some path must admit hyps & goal
+    pick, cnt = [], {}
+    for r in res:
+        o = r["obl"]
+        if o.kind == "ensures" and r["status"] == "unsat":
+            cnt[o.id] = cnt.get(o.id, 0) + 1
+            if cnt[o.id] <= 2:
+                co = Obligation("canary:" + o.id, "canary", o.hyps, z3.Not(o.goal))
+                co.base = o.id
+                pick.append(co)
+    seen_clause = {}
+    if pick:
+        for r in solve.discharge_all(pick, timeout_ms=3000, use_cvc5=False):
+            base = r["obl"].base
+            seen_clause[base] = seen_clause.get(base, False) or r["status"] in ("sat", "sat-inst", "unknown")
+        for base, ok in seen_clause.items():
+            doc["canary"]["checked"] += 1
+            if not ok:
+                doc["canary"]["vacuous"].append(base)
+                doc["errors"].append(f"vacuous clause (its negation is also provable on every sampled path): {base}")
+    # path cover: hypotheses of every explored path satisfiable
+    cover_obls, seen_paths = [], set()
+    for r in res:
+        o = r["obl"]
+        if o.kind in ("ensures", "raises") and getattr(o, "path", "") not in seen_paths:
+            seen_paths.add(getattr(o, "path", ""))
+            cover_obls.append(Obligation(f"cover:{c.name}:{getattr(o, 'path', '')}", "cover", o.hyps, z3.BoolVal(False)))
+    doc["cover"]["paths"] = len(cover_obls)
+    if cover_obls:
+        for r in solve.discharge_all(cover_obls, timeout_ms=2000, use_cvc5=False):
+            if r["status"] == "unsat":
+                doc["cover"]["vacuous"].append(r["obl"].id)
+                doc["undecided"].append(f"vacuous path (hypotheses unsatisfiable): {r['obl'].id}")
+    return doc
+
+
 def main():
     ap = argparse.ArgumentParser()
     ap.add_argument("prop")
@@ -88,94 +206,28 @@ def main():
     trusted = []
     solver_time = 0.0
     gens = {}
+    canary = {"checked": 0, "vacuous": []}
+    cover = {"paths": 0, "vacuous": []}
+    cache_hits = 0
     for c in contracts:
-        g = verify.generate(c)
-        gens[c.key] = g
-        fs = g.func
-        functions.append({"contract": c.name, "target": c.target, "variant": c.variant,
-                          "source_sha": fs.sha if fs else None, "lines": list(fs.lines) if fs else None,
-                          "paths": g.paths, "outcomes": g.outcomes, "obligations": len(g.obls),
-                          "trusted": bool(c.trusted), "kind": "lemma" if c.target.startswith("lemma::") else "function"})
+        doc = run_contract_cached(c, tier, timeout_ms)
+        cache_hits += 1 if doc.get("_cached") else 0
+        gens[c.key] = doc
+        functions.append(doc["function"])
         if c.trusted:
             trusted.append(f"TRUSTED contract (body not verified): {c.target} -- {c.note}")
-        for u in g.undecided:
-            undecided.append(f"{c.name}: {u}")
-        if not g.undecided and not c.trusted and not g.obls:
-            undecided.append(f"{c.name}: generated zero obligations")
-        # probes for counter-models
-        if c.probes:
-            pr = verify.probes_for(g, c.probes)
-            for o in g.obls:
-                o.probes = pr
-        res = solve.discharge_all(g.obls, timeout_ms=timeout_ms)
-        for r in res:
+        undecided.extend(doc["undecided"])
+        errors.extend(doc["errors"])
+        canary["checked"] += doc["canary"]["checked"]
+        canary["vacuous"] += doc["canary"]["vacuous"]
+        cover["paths"] += doc["cover"]["paths"]
+        cover["vacuous"] += doc["cover"]["vacuous"]
+        for r in doc["results"]:
+            r = dict(r)
             r["contract"] = c
+            r["obl"] = ObView(r)
             all_results.append(r)
             solver_time += r["time"]
-
-    # ---- clause coverage guard: every contract clause generated at least one obligation -------------------
-    for c in contracts:
-        g = gens[c.key]
-        if g.undecided or c.trusted:
-            continue
-        labels = {o.id.split("/", 1)[1] for o in g.obls}
-        for lab, _ in c.ensures:
-            if f"ensures:{lab}" not in labels:
-                undecided.append(f"{c.name}: clause ensures:{lab} generated no obligation (contract no longer matches the code)")
-
-    # ---- vacuity canary: for every ensures clause some path must admit hyps & goal ---------------------------
-    canary = {"checked": 0, "vacuous": []}
-    can_obls = []
-    for r in all_results:
-        o = r["obl"]
-        if o.kind == "ensures" and r["status"] == "unsat":
-            from pyvc.engine import Obligation
-            co = Obligation("canary:" + o.id, "canary", o.hyps, z3.Not(o.goal))
-            co.base = o.id
-            can_obls.append(co)
-    seen_clause = {}
-    if can_obls:
-        # one canary per (contract, clause): take the first two paths
-        pick = []
-        cnt = {}
-        for co in can_obls:
-            cnt[co.base] = cnt.get(co.base, 0) + 1
-            if cnt[co.base] <= 2:
-                pick.append(co)
-        cres = solve.discharge_all(pick, timeout_ms=5000, use_cvc5=False)
-        for r in cres:
-            base = r["obl"].base
-            ok = r["status"] in ("sat", "sat-inst", "unknown")
-            seen_clause[base] = seen_clause.get(base, False) or ok
-        for base, ok in seen_clause.items():
-            canary["checked"] += 1
-            if not ok:
-                canary["vacuous"].append(base)
-        for v in canary["vacuous"]:
-            errors.append(f"vacuous clause (its negation is also provable on every sampled path): {v}")
-
-    # ---- path cover: the hypotheses of every explored path must be satisfiable (an inconsistent callee contract
-    #      or frame would make everything after the call vacuously provable) ---------------------------------------
-    cover_obls = []
-    seen_paths = set()
-    from pyvc.engine import Obligation as _Ob
-    for r in all_results:
-        o = r["obl"]
-        if o.kind not in ("ensures", "raises"):
-            continue
-        key = (r["contract"].key, getattr(o, "path", ""))
-        if key in seen_paths:
-            continue
-        seen_paths.add(key)
-        co = _Ob(f"cover:{r['contract'].name}:{key[1]}", "cover", o.hyps, z3.BoolVal(False))
-        cover_obls.append(co)
-    cover = {"paths": len(cover_obls), "vacuous": []}
-    if cover_obls:
-        for r in solve.discharge_all(cover_obls, timeout_ms=2000, use_cvc5=False):
-            if r["status"] == "unsat":          # hyps => False : the path is infeasible / the hypotheses inconsistent
-                cover["vacuous"].append(r["obl"].id)
-    for v in cover["vacuous"]:
-        undecided.append(f"vacuous path (hypotheses unsatisfiable): {v}")
 
     # ---- verdicts per obligation ------------------------------------------------------------------------------
     os.makedirs(os.path.join(HERE, "replays"), exist_ok=True)
@@ -196,8 +248,8 @@ def main():
         if r["status"] in ("unknown",):
             c = r["contract"]
             b = baseline.get(c.key)
-            fs = gens[c.key].func
-            if b and fs and r["obl"].id in b.get("discharged", []) and b.get("sha") != fs.sha:
+            sha = gens[c.key]["function"]["source_sha"]
+            if b and sha and r["obl"].id in b.get("discharged", []) and b.get("sha") != sha:
                 r["status"] = "regressed"
                 regressed.append(r)
     for r in all_results:
@@ -340,8 +392,7 @@ def main():
         os.makedirs(os.path.join(HERE, "baseline"), exist_ok=True)
         doc = {}
         for c in contracts:
-            fs = gens[c.key].func
-            doc[c.key] = {"sha": fs.sha if fs else None,
+            doc[c.key] = {"sha": gens[c.key]["function"]["source_sha"],
                           "discharged": sorted({r["obl"].id for r in all_results if r["contract"] is c and r["status"] == "unsat"})}
         json.dump(doc, open(base_path, "w"), indent=0)
 
@@ -367,6 +418,7 @@ def main():
         "checker_errors": errors[:20],
         "canary": canary,
         "path_cover": cover,
+        "contract_results_reused_from_cache": cache_hits,
         "known_findings_confirmed": known_lines,
         "engine_cross_check": {**xcheck, "samples": xsamples[:3]},
         "bounded_standins": [{k: v for k, v in b.items() if k != "failures"} | {"failures": len(b.get("failures", []))}
